@@ -242,11 +242,17 @@ def run_mgr_scripts(ctx, cases_path):
     return out
 
 
-def sample_lines(ctx, path, n):
+def sample_lines(ctx, path, n, keep=None):
+    """seeded sample of n cases; cases for which keep(case_text) holds are always included (the property's own stimuli)"""
     lines = open(path).read().splitlines()
     if n and len(lines) > n:
-        ctx.rng.shuffle(lines)
-        lines = lines[:n]
+        must = [l for l in lines if keep and keep(l)]
+        rest = [l for l in lines if not (keep and keep(l))]
+        ctx.rng.shuffle(rest)
+        if len(must) > 3 * n:
+            ctx.rng.shuffle(must)
+            must = must[:3 * n]
+        lines = must + rest[:max(0, n - len(must))]
     p = path + ".sample"
     open(p, "w").write("\n".join(lines) + "\n")
     return p, len(lines)
@@ -272,7 +278,7 @@ def classify_mgr(ctx, verdicts, prefixes, obs_idx, tag):
                       detail={"verdict": v, "step": step})
 
 
-def mgr_family(ctx, prefixes, families, nontrivial, quick_n=3000, model_roles=("respPush",), invariants=(), sim_quick=(8, 8), sim_thorough=(150, 12), sim_roles_quick=("respPull", "initPush"), model=True, sims=True):
+def mgr_family(ctx, prefixes, families, nontrivial, quick_n=3000, model_roles=("respPush",), invariants=(), sim_quick=(8, 8), sim_thorough=(150, 12), sim_roles_quick=("respPull", "initPush"), model=True, sims=True, keep=None):
     # 1. design level
     for role in ((model_roles if ctx.quick() else ALL_ROLES) if model else ()):
         mgr_model(ctx, role, 2 if ctx.quick() else 3, invariants)
@@ -281,7 +287,7 @@ def mgr_family(ctx, prefixes, families, nontrivial, quick_n=3000, model_roles=("
     for fam in families:
         cases = mgr_tab(ctx, fam)
         if ctx.quick():
-            cases, n = sample_lines(ctx, cases, quick_n)
+            cases, n = sample_lines(ctx, cases, quick_n, keep=keep)
         obs = run_mgr_scripts(ctx, cases)
         n, verdicts = judge(ctx, obs, module="MgrJudge")
         idx = index_obs(obs)
